@@ -340,6 +340,59 @@ func TestVerif_C04_RoundTrip(t *testing.T) {
 			r.Sample(map[string]string{"k": "0x" + k.Text(16), "g1_compressed": verifkit.Hex(c04ExpectCompressG1(new(bn256.G1).ScalarBaseMult(k).Marshal()))})
 		}
 	})
+	// Decompression must be a function of its input alone: points that share
+	// an x coordinate (P and -P) are decompressed one after the other, in both
+	// orders and repeatedly, on one goroutine (a history-dependent decoder is
+	// not exercised by independent round trips running side by side).
+	{
+		seq := r.N(60, 600)
+		rng := r.Rand("negation-pairs")
+		var pairs int64
+		for i := 0; i < seq; i++ {
+			var k *big.Int
+			if i < 20 {
+				k = big.NewInt(int64(i + 1))
+			} else {
+				b := make([]byte, 32)
+				rng.Read(b)
+				k = new(big.Int).SetBytes(b)
+				if new(big.Int).Mod(k, c04Q).Sign() == 0 {
+					continue
+				}
+			}
+			nk := new(big.Int).Sub(c04Q, new(big.Int).Mod(k, c04Q))
+			order := []*big.Int{k, nk, k, nk}
+			if i%2 == 1 {
+				order = []*big.Int{nk, k, nk, k}
+			}
+			desc := fmt.Sprintf("negation-pair k=0x%s order=%d", k.Text(16), i%2)
+			r.Case(desc, true)
+			pairs++
+			for step, kk := range order {
+				g1 := new(bn256.G1).ScalarBaseMult(kk)
+				g2 := new(bn256.G2).ScalarBaseMult(kk)
+				var b1 *bn256.G1
+				var b2 *bn256.G2
+				var e1, e2 error
+				res := c04Call(r, "roundtripPair:", desc, func() {
+					b1, e1 = DecompressToG1(G1Point{g1}.Compress())
+					b2, e2 = DecompressToG2(G2Point{g2}.Compress())
+				})
+				if !res.returned || res.panicked {
+					break
+				}
+				if e1 != nil || b1 == nil || !bytes.Equal(b1.Marshal(), g1.Marshal()) {
+					r.Violation("roundtripG1:depends-on-history", fmt.Sprintf("decompress(compress(P)) != P at step %d of decompressing P and -P alternately (error: %v)", step, e1), desc, nil)
+					break
+				}
+				if e2 != nil || b2 == nil || !bytes.Equal(b2.Marshal(), g2.Marshal()) {
+					r.Violation("roundtripG2:depends-on-history", fmt.Sprintf("decompress(compress(P)) != P at step %d of decompressing P and -P alternately (error: %v)", step, e2), desc, nil)
+					break
+				}
+			}
+		}
+		r.Count("negation_pairs_decompressed_alternately", pairs)
+	}
 	// G1 points that are not of a known k*G form: outputs of the hash
 	nh := r.N(100, 1000)
 	verifkit.Parallel(nh, 0, func(i int) {
